@@ -422,6 +422,24 @@ StepRemoval == [][last'.e = "sys" /\ last'.call = "unlink" /\ last'.res = "ok" /
                     \/ d = TD /\ (\/ last'.path.n = loc[last'.p].tmp          \* its own temporary file
                                   \/ TLt(<<fs.inos[i].mt[1] + MaxAge, 0>>, Tm(clock)))]_vars   \* or a stale one
 
+\* C04 at design level (refinement of Register.tla under the mapping "value of k = value of the inode bound at W/k"):
+\* the abstract value of a key changes only at the linearization point of a write -- set's rename (to the setter's
+\* value, whatever was there), put's successful link (only from absent) -- or by an eviction / outside deletion.
+Abs(f, k) == IF B \in DOMAIN f.ents /\ k \in DOMAIN f.ents[B] /\ f.ents[B][k] \in DOMAIN f.inos
+             THEN f.inos[f.ents[B][k]].c.val ELSE "none"
+AllKeys == UNION {{Prog[p][i].key : i \in 1..Len(Prog[p])} : p \in Procs} \cup {e.key : e \in Pre}
+StepRegister == [][\A k \in AllKeys : LET a == Abs(fs, k) b == Abs(fs', k) IN
+                    a # b =>
+                       \/ last'.e = "sys" /\ last'.call = "rename" /\ last'.res = "ok" /\ last'.api = "set" /\ last'.path2 = PKey(k)
+                          /\ b = loc[last'.p].op.val
+                       \/ last'.e = "sys" /\ last'.call = "link" /\ last'.res = "ok" /\ last'.api = "put" /\ last'.path2 = PKey(k)
+                          /\ a = "none" /\ b = loc[last'.p].op.val
+                       \/ last'.e = "sys" /\ last'.call = "unlink" /\ last'.ph = "lib" /\ b = "none" /\ pc[last'.p] = "m7"
+                       \/ last'.e = "advdel" /\ b = "none"]_vars
+\* a lookup returns the abstract value the key had at its linearization point (the open): the handle it got is the inode bound then
+StepGetLin == [][last'.e = "sys" /\ last'.api = "get" /\ last'.pcl = "g1" /\ last'.res = "ok" =>
+                    fs.inos[last'.ino].c.val = Abs(fs, last'.path.n)]_vars
+
 \* observation variables are kept out of the state space
 View == <<fs, pc, loc, aux.pubs, aux.errs, aux.crashed, aux.advs, aux.rets>>
 =============================================================================
